@@ -159,7 +159,14 @@ type fixture struct {
 
 func newFixture(nval int) *fixture {
 	t := &quietT{}
+	// the node makes its own trace-level logger on os.Stderr: keep its start-up lines out of the run's output
+	saved := os.Stderr
+	if null, err := os.OpenFile(os.DevNull, os.O_WRONLY, 0); err == nil {
+		os.Stderr = null
+		defer null.Close()
+	}
 	nd := test.NewNode(t, test.UseGenesis(genesisFor(nval)))
+	os.Stderr = saved
 	nd.Chain.Logger().SetOutput(io.Discard)
 	nd.Chain.Logger().SetLevel(log.PanicLevel)
 	log.GlobalLogger().SetOutput(io.Discard)
